@@ -35,6 +35,8 @@ Definition bbind {A C} (m : B A) (f : A -> B C) : B C := fun b =>
 Notation "x <~ m ;; f" := (bbind m (fun x => f)) (at level 61, m at next level, right associativity).
 
 Definition W64 := 18446744073709551616.
+Definition HUFF_LOOKAHEAD := 8.
+Definition FAST_FILL_THRESHOLD := 16.   (* FILL_BIT_BUFFER_FAST: if (bits_left <= 16) *)
 Definition MIN_GET_BITS := 57.     (* BIT_BUF_SIZE - 7 with the 64-bit bit_buf_type; tied to jdhuff.c by C09_source_constants *)
 
 (* the byte loop of jpeg_fill_bit_buffer; ff = inside the do { } while (c == 0xFF) loop *)
@@ -113,19 +115,19 @@ Fixpoint look_go (fuel : nat) (t : dtbl) (look l : Z) : option (Z * Z) :=
   match fuel with
   | O => None
   | S f =>
-    let code := Z.shiftr look (8 - l) in
+    let code := Z.shiftr look (HUFF_LOOKAHEAD - l) in
     if code <=? nz (maxcode t) l then Some (l, nz (huffval t) (code + nz (valoffset t) l))
     else look_go f t look (l + 1)
   end.
 
 (* HUFF_DECODE(result, br_state, htbl, return FALSE, label) *)
 Definition huff_decode (t : dtbl) : B Z :=
-  _ <~ bread bl (fun l => if l <? 8 then fill 0 else bret tt) ;;
-  bread (fun b => (bl b, peek 8 b)) (fun lk =>
-    if fst lk <? 8 then huff_decode_slow t 1
-    else match look_go 8 t (snd lk) 1 with
+  _ <~ bread bl (fun l => if l <? HUFF_LOOKAHEAD then fill 0 else bret tt) ;;
+  bread (fun b => (bl b, peek HUFF_LOOKAHEAD b)) (fun lk =>
+    if fst lk <? HUFF_LOOKAHEAD then huff_decode_slow t 1
+    else match look_go (Z.to_nat HUFF_LOOKAHEAD) t (snd lk) 1 with
          | Some (nb, sym) => _ <~ drop nb ;; bret sym
-         | None => huff_decode_slow t 9
+         | None => huff_decode_slow t (HUFF_LOOKAHEAD + 1)
          end).
 
 (* HUFF_EXTEND(x, s) *)
@@ -270,3 +272,118 @@ Definition scan_blocks (s : mstate) (nblk : list nat) : list (nat * dtbl * dtbl)
       let ci := Z.to_nat (cget G_CUR i c - 1) in
       repeat (i, tbl false (cget G_DC ci c), tbl true (cget G_AC ci c)) (nth i nblk 0%nat))
     (seq 0 (Z.to_nat (cget G_SC S_CIS c))).
+
+(* ------------------------------------------------------------ the fast path, jdhuff.c decode_mcu_fast
+   Used by decode_mcu when no restart interval is active, unread_marker == 0 and at least
+   BUFSIZE * blocks_in_MCU bytes are buffered; it never calls fill_input_buffer.  GET_BYTE pre-executes the
+   FF/00 case; on a marker it records cinfo->unread_marker, backs the pointer out and feeds zero bytes.  If
+   a marker was seen the whole MCU is abandoned (unread_marker = 0; return FALSE: nothing committed) and
+   decode_mcu_slow redoes it from the saved state. *)
+Definition FAST_BUFSIZE := 512%nat.       (* BUFSIZE = DCTSIZE2 * 8 *)
+
+Record fbr := { f_gb : Z; f_bl : Z; f_rest : list byte; f_mark : Z }.
+Definition F (A : Type) := fbr -> option (A * fbr).
+Definition fret {A} (a : A) : F A := fun b => Some (a, b).
+Definition fbind {A C} (m : F A) (f : A -> F C) : F C := fun b => match m b with Some (a, b') => f a b' | None => None end.
+Notation "x <- m ;;; f" := (fbind m (fun x => f)) (at level 61, m at next level, right associativity).
+
+(* GET_BYTE *)
+Definition fget_byte : F unit := fun b =>
+  match f_rest b with
+  | c0 :: r =>
+    if c0 =? 255 then
+      match r with
+      | c1 :: r' =>
+        if c1 =? 0 then Some (tt, {| f_gb := (f_gb b * 256 + 255) mod W64; f_bl := f_bl b + 8; f_rest := r'; f_mark := f_mark b |})
+        else Some (tt, {| f_gb := (f_gb b * 256) mod W64; f_bl := f_bl b + 8; f_rest := f_rest b; f_mark := c1 |})
+      | [] => None
+      end
+    else Some (tt, {| f_gb := (f_gb b * 256 + c0) mod W64; f_bl := f_bl b + 8; f_rest := r; f_mark := f_mark b |})
+  | [] => None                                (* can not happen: BUFSIZE bytes per block are buffered *)
+  end.
+
+(* FILL_BIT_BUFFER_FAST (64-bit register): if (bits_left <= 16) six GET_BYTEs *)
+Definition ffill : F unit := fun b =>
+  if f_bl b <=? FAST_FILL_THRESHOLD then
+    (_ <- fget_byte ;;; _ <- fget_byte ;;; _ <- fget_byte ;;; _ <- fget_byte ;;; _ <- fget_byte ;;; fget_byte) b
+  else Some (tt, b).
+
+Definition fpeek (n : Z) (b : fbr) : Z := Z.land (Z.shiftr (f_gb b) (f_bl b - n)) (2 ^ n - 1).
+Definition fdrop (n : Z) : F unit := fun b => Some (tt, {| f_gb := f_gb b; f_bl := f_bl b - n; f_rest := f_rest b; f_mark := f_mark b |}).
+Definition fget_bits (n : Z) : F Z := fun b => fbind (fdrop n) (fun _ => fret (fpeek n b)) b.
+
+Fixpoint fhd_loop (fuel : nat) (t : dtbl) (code l : Z) : F Z :=
+  match fuel with
+  | O => fret 0
+  | S f =>
+    if code >? nz (maxcode t) l then (bit <- fget_bits 1 ;;; fhd_loop f t (code * 2 + bit) (l + 1))
+    else if l >? 16 then fret 0
+    else fret (nz (huffval t) (Z.land (code + nz (valoffset t) l) 255))
+  end.
+
+(* HUFF_DECODE_FAST *)
+Definition fhuff_decode (t : dtbl) : F Z :=
+  _ <- ffill ;;;
+  fun b =>
+    match look_go (Z.to_nat HUFF_LOOKAHEAD) t (fpeek HUFF_LOOKAHEAD b) 1 with
+    | Some (nb, sym) => fbind (fdrop nb) (fun _ => fret sym) b
+    | None => fbind (fget_bits (HUFF_LOOKAHEAD + 1)) (fun code => fhd_loop 18 t code (HUFF_LOOKAHEAD + 1)) b
+    end.
+
+Fixpoint fac_loop (fuel : nat) (t : dtbl) (k : Z) (coef : list Z) : F (list Z) :=
+  match fuel with
+  | O => fret coef
+  | S f =>
+    if k <? 64 then
+      s0 <- fhuff_decode t ;;;
+      let r := Z.shiftr s0 4 in
+      let s := Z.land s0 15 in
+      if negb (s =? 0) then
+        let k' := k + r in
+        _ <- ffill ;;; v <- fget_bits s ;;;
+        fac_loop f t (k' + 1) (upd (Z.to_nat (Z.min k' 63)) (huff_extend v s) coef)
+      else if negb (r =? 15) then fret coef
+      else fac_loop f t (k + 16) coef
+    else fret coef
+  end.
+
+Definition fdecode_block (ci : nat) (dc ac : dtbl) (last : list Z) : F (list Z * list Z) :=
+  s <- fhuff_decode dc ;;;
+  d <- (if negb (s =? 0) then (_ <- ffill ;;; r <- fget_bits s ;;; fret (huff_extend r s)) else fret 0) ;;;
+  let v := d + nth ci last 0 in
+  coef <- fac_loop 63 ac 1 (upd 0 v (repeat 0 64)) ;;;
+  fret (upd ci v last, coef).
+
+Fixpoint fdecode_blocks (bls : list (nat * dtbl * dtbl)) (last : list Z) (acc : list (list Z)) : F (list Z * list (list Z)) :=
+  match bls with
+  | [] => fret (last, acc)
+  | (ci, dc, ac) :: bls' => r <- fdecode_block ci dc ac last ;;; fdecode_blocks bls' (fst r) (acc ++ [snd r])
+  end.
+
+(* decode_mcu_fast: None = return FALSE (marker seen, or -- impossible in C -- the buffer ran out) *)
+Definition fast_mcu (bls : list (nat * dtbl * dtbl)) (s : hstate) (p : list byte) : option (list Z * list (list Z) * fbr) :=
+  match fdecode_blocks bls (h_last s) [] {| f_gb := h_gb s; f_bl := h_bl s; f_rest := p; f_mark := 0 |} with
+  | Some (r, b) => if f_mark b =? 0 then Some (fst r, snd r, b) else None
+  | None => None
+  end.
+
+Definition usefast (bls : list (nat * dtbl * dtbl)) (s : hstate) (p : list byte) : bool :=
+  (h_ri s =? 0) && Nat.leb (FAST_BUFSIZE * length bls) (length p) && (h_um s =? 0).
+
+(* decode_mcu with the fast/slow switch *)
+Definition mcu_unit_sw (bls : list (nat * dtbl * dtbl)) (s : hstate) (p : list byte) : ures hstate herr :=
+  match h_left s with
+  | O => Halt
+  | S _ =>
+    if usefast bls s p && negb (h_insuf s) then
+      match fast_mcu bls s p with
+      | Some (last, blocks, b) =>
+          Done (commit_mcu s {| gb := f_gb b; bl := f_bl b; rest := f_rest b; um := 0; insuf := false; wn := h_warn s |} last blocks)
+               (length p - length (f_rest b)) 0
+      | None => mcu_unit bls s p                 (* goto use_slow *)
+      end
+    else mcu_unit bls s p
+  end.
+
+Definition run_scan_sw (bls : list (nat * dtbl * dtbl)) (cs : list (list byte)) (s : hstate) :=
+  run_chunked (mcu_unit_sw bls) mcu_slack cs s.
